@@ -5,6 +5,9 @@ package main
 // parameter preconditions at every caller of an unexported function.
 
 import (
+	"strings"
+	"fmt"
+	"os"
 	"go/token"
 	"go/types"
 
@@ -204,6 +207,31 @@ func candidateInvariants(fn *ssa.Function, hd *ssa.BasicBlock, site ssa.Instruct
 			return with(p, s, func() linExpr { return p.lenOf(d).add(newLin(1), -1) })
 		})
 	}
+	// a loop-carried slice that never shrinks below its length on entry (append-only accumulation)
+	for _, d := range slicePhis {
+		d := d
+		var dInit ssa.Value
+		n := 0
+		for e, pr := range hd.Preds {
+			if !(pr == hd || hd.Dominates(pr)) {
+				dInit = d.Edges[e]
+				n++
+			}
+		}
+		if n != 1 || dInit == nil {
+			continue
+		}
+		out = append(out, func(p *prover, s map[ssa.Value]ssa.Value) linExpr {
+			return with(p, s, func() linExpr {
+				cur := p.lenOf(d)
+				old := p.subst
+				p.subst = nil
+				ini := p.lenOf(dInit)
+				p.subst = old
+				return cur.add(ini, -1)
+			})
+		})
+	}
 	// pair invariant: s·len(d) + k·i is constant
 	for _, d := range slicePhis {
 		for _, i := range intPhis {
@@ -265,7 +293,107 @@ func candidateInvariants(fn *ssa.Function, hd *ssa.BasicBlock, site ssa.Instruct
 
 // verifiedInvariants runs the Houdini loop: drop candidates until every survivor is
 // initialised on loop entry and preserved by every back edge (assuming all survivors).
+type invKey struct {
+	hd   *ssa.BasicBlock
+	site ssa.Instruction
+}
+
+var invCache = map[invKey][]invariant{}
+var invDepth = 0
+
 func verifiedInvariants(fn *ssa.Function, hd *ssa.BasicBlock, site ssa.Instruction) []invariant {
+	k := invKey{hd, site}
+	if r, ok := invCache[k]; ok {
+		return r
+	}
+	r := verifiedInvariantsUncached(fn, hd, site)
+	invCache[k] = r
+	return r
+}
+
+// proveEntryDeep: a candidate must hold when the loop headed by hd is entered through pr.  If the guards at that
+// point do not suffice, use what earlier, already finished loops establish (their verified invariants) and a case
+// split over the merge φs that dominate the entry — the value a previous search loop leaves behind typically
+// arrives through such a merge.
+func proveEntryDeep(fn *ssa.Function, pr, hd *ssa.BasicBlock, goal func(*prover) linExpr) bool {
+	if invDepth > 0 {
+		return false
+	}
+	invDepth++
+	defer func() { invDepth-- }()
+	var finished []*ssa.BasicBlock
+	for _, h2 := range fn.Blocks {
+		if h2 == hd {
+			continue
+		}
+		l := naturalLoop(h2)
+		if len(l) == 0 || l[pr] || !h2.Dominates(pr) {
+			continue
+		}
+		finished = append(finished, h2)
+	}
+	addInv := func(q *prover) {
+		for _, h2 := range finished {
+			for _, inv := range verifiedInvariants(fn, h2, nil) {
+				q.fact(inv(q, nil))
+			}
+		}
+	}
+	q := contextAtEdge(fn, pr, hd)
+	addInv(q)
+	if q.prove(goal(q)) {
+		return true
+	}
+	// case split over one merge φ
+	for _, b := range fn.Blocks {
+		if !b.Dominates(pr) && b != pr {
+			continue
+		}
+		for _, in := range b.Instrs {
+			m, ok := in.(*ssa.Phi)
+			if !ok {
+				break
+			}
+			if isLoopHeaderPhi(m) || !isIntType(m.Type()) {
+				continue
+			}
+			all := true
+			for e, mp := range b.Preds {
+				q := contextAtEdge(fn, pr, hd)
+				ctx := contextAtEdge(fn, mp, b)
+				q.facts = append(q.facts, ctx.facts...)
+				for k, v := range ctx.atoms {
+					q.atoms[k] = v
+				}
+				addInv(q)
+				q.subst = map[ssa.Value]ssa.Value{}
+				for _, x := range b.Instrs {
+					if ph2, ok := x.(*ssa.Phi); ok {
+						q.subst[ph2] = ph2.Edges[e]
+					} else {
+						break
+					}
+				}
+				// the guards at the loop entry mention m itself: re-derive them under the substitution
+				if t := lastInstr(pr); t != nil {
+					for _, g := range guardAtoms(fn, nil, t) {
+						q.addGuard(g)
+					}
+				}
+				if !q.prove(goal(q)) {
+					all = false
+					break
+				}
+			}
+			if all {
+				return true
+			}
+		}
+	}
+	return false
+}
+
+func verifiedInvariantsUncached(fn *ssa.Function, hd *ssa.BasicBlock, site ssa.Instruction) []invariant {
 	cands := candidateInvariants(fn, hd, site)
 	var phis []*ssa.Phi
 	for _, in := range hd.Instrs {
@@ -302,7 +430,29 @@ func verifiedInvariants(fn *ssa.Function, hd *ssa.BasicBlock, site ssa.Instructi
 					}
 				}
 				if !ctx.prove(c(ctx, substFor(e))) {
+					if !back {
+						c, sb := c, substFor(e)
+						if proveEntryDeep(fn, pr, hd, func(q *prover) linExpr {
+							// the candidate's own substitution (header φ → entry value) composed with the case split
+							m := map[ssa.Value]ssa.Value{}
+							for k, v := range q.subst {
+								m[k] = v
+							}
+							for k, v := range sb {
+								m[k] = v
+							}
+							return c(q, m)
+						}) {
+							continue
+						}
+					}
 					ok = false
+					if os.Getenv("VT_DEBUG") != "" && strings.Contains(shortFunc(fn), os.Getenv("VT_DEBUG")) {
+						fmt.Fprintf(os.Stderr, "DROP cand#%d on edge %d→%d (back=%v): %s >= 0\n", ci, pr.Index, hd.Index, back, c(ctx, substFor(e)).String())
+						for _, f := range ctx.facts {
+							fmt.Fprintf(os.Stderr, "      fact %s >= 0\n", f.String())
+						}
+					}
 					break
 				}
 			}
@@ -354,9 +504,18 @@ func proveWithInvariants(fn *ssa.Function, in ssa.Instruction, goalIdx int) bool
 	for _, hd := range hds {
 		for _, inv := range verifiedInvariants(fn, hd, in) {
 			p.fact(inv(p, nil))
+			if os.Getenv("VT_DEBUG") != "" {
+				fmt.Fprintf(os.Stderr, "INV %s hd=%d: %s >= 0\n", shortFunc(fn), hd.Index, inv(p, nil).String())
+			}
 		}
 	}
 	goals, _, _, _ := boundsGoals(p, in)
+	if os.Getenv("VT_DEBUG") != "" && goalIdx < len(goals) {
+		fmt.Fprintf(os.Stderr, "GOAL %s: %s >= 0\n", describe(in.(ssa.Value)), goals[goalIdx].String())
+		for _, f := range p.facts {
+			fmt.Fprintf(os.Stderr, "   FACT %s >= 0\n", f.String())
+		}
+	}
 	if goalIdx >= len(goals) {
 		return false
 	}
